@@ -43,20 +43,23 @@ INVARIANT PanicProbe
 def instances(tier):
     row = "(layer-while-held l1) (layer-while-held l2) (one-shot 2 (layer-while-held l1))"
     I = [
-        {"name": "layers", "depth": (6, 8), "keys": ["a", "b", "c"], "kinds": ["d", "u", "p"],
+        {"name": "layers", "depth": (6, 8), "keys": ["a", "b", "c"], "qkeys": ["a", "c"], "kinds": ["d", "u", "p"],
          "kbd": "(defsrc a b c)\n(deflayer l0 %s)\n(deflayer l1 %s)\n(deflayer l2 %s)\n" % (row, row, row),
          "caps": {}, "scaled": {"rep": 5}},
-        {"name": "index_rpt", "depth": (6, 9), "keys": ["a", "b", "c", "d"], "kinds": ["d", "u"],
+        {"name": "index_rpt", "depth": (5, 9), "keys": ["a", "b", "c", "d"], "kinds": ["d", "u"],
          "kbd": "(defsrc a b c d)\n(deflayer l0 (tap-dance 2 ()) (tap-dance-eager 2 ()) (multi rpt-any) (fork rpt-any x (lsft)))\n",
          "caps": {}},
-        {"name": "wdelay", "depth": (7, 10), "keys": ["a", "b", "c"], "kinds": ["d", "u"],
+        {"name": "wdelay", "depth": (6, 8), "keys": ["a", "b", "c"], "qkeys": ["a", "c"], "kinds": ["d", "u"],
          "kbd": "(defcfg rapid-event-delay 2)\n(defsrc a b c)\n(deflayer l0 (tap-hold 0 2 x y) (tap-hold 0 2 z w) (one-shot 2 lsft))\n",
          "caps": {"u16max": 3},
          "scaled": {"tick": 21845,
                     "kbd": "(defcfg rapid-event-delay 43690)\n(defsrc a b c)\n(deflayer l0 (tap-hold 0 43690 x y) (tap-hold 0 43690 z w) (one-shot 43690 lsft))\n"}},
-        {"name": "wrapping", "depth": (6, 8), "keys": ["a", "b", "c"], "kinds": ["d", "u", "p"],
+        {"name": "wrapping", "depth": (5, 7), "keys": ["a", "b", "c"], "kinds": ["d", "u", "p"],
          "kbd": "(defsrc a b c)\n(deflayer l0 (macro x y) (one-shot 2 lsft) (multi lctl lalt))\n", "caps": {}},
     ]
+    if tier == "quick":
+        for i in I:
+            i["keys"] = i.get("qkeys", i["keys"])
     if tier != "quick":
         I.append({"name": "chords_td", "depth": (6, 8), "keys": ["a", "b", "c"], "kinds": ["d", "u", "p"],
                   "kbd": "(defsrc a b c)\n(defchords cg 2 (a) x (b) y (a b) z)\n(deflayer l0 (chord cg a) (chord cg b) (tap-dance 2 (x y)))\n",
